@@ -10,6 +10,9 @@ Definition hcat (l : list bytes) : bytes := List.concat l.
 Definition blen (b : bytes) : N := N.of_nat (length b).
 Definition zlen {A} (l : list A) : Z := Z.of_nat (length l).
 
+(** [count] copies of [pat]: compact form of the long inputs of the observers *)
+Definition rep_bytes (pat : bytes) (count : N) : bytes := N.iter count (fun acc => pat ++ acc) [].
+
 (** two's complement conversions between Go's int64 / uint64 and Z / N *)
 Definition two63 : Z := 9223372036854775808%Z.
 Definition two64 : Z := 18446744073709551616%Z.
